@@ -19,7 +19,9 @@ def to_iter(vm, m, v):
         if isinstance(t, (SliceRef, Iter)): return to_iter(vm, m, t)
         raise VMError('into_iter of ref to %r' % (t,))
     if isinstance(v, Seq): return Iter(v.items)          # Vec<T> / [T; N] by value
-    if isinstance(v, Struct) and v.ty == 'HashMap': return Iter(v.f[0].items)
+    if isinstance(v, Struct) and v.ty == 'HashMap':
+        from .intrinsics import hm_order
+        return Iter([v.f[0].items[i] for i in hm_order(v, len(v.f[0].items))])
     if isinstance(v, Struct) and v.ty == 'Range':
         lo, hi = v.f
         if is_sym(lo) or is_sym(hi): raise Unmodelled('symbolic range iterator')
@@ -109,7 +111,8 @@ def dispatch(vm, m, c, args):
                         for i, p in enumerate(pairs):
                             if p.f[0].s == k.s: pairs[i] = Struct((k, v.f[1])); break
                         else: pairs.append(Struct((k, v.f[1])))
-                    res.append((m1, 'ret', Struct((Seq(pairs),), 'HashMap')))
+                    from .intrinsics import hm_new
+                    res.append((m1, 'ret', hm_new(vm, pairs)))
                 elif n == 'collect': res.append((m1, 'ret', Seq(vals)))
                 elif n == 'count': res.append((m1, 'ret', len(vals)))
                 elif n == 'sum':
